@@ -143,6 +143,36 @@ Proof.
 Qed.
 Print Assumptions C08_cached_refuted.
 
+(* A prefix-header cache (state snapshot taken after the forced includes, shallow copy shared by
+   the later commands with the same options): both commands use -include config.h with
+   identical options; a.c defines T after the prefix, b.c tests it. *)
+Definition ex_ia : entry := {| e_file := ["src"; "a.c"]; e_dirs := []; e_defs := []; e_incs := [["config.h"]] |}.
+Definition ex_ib : entry := {| e_file := ["src"; "b.c"]; e_dirs := []; e_defs := []; e_incs := [["config.h"]] |}.
+Definition ex_fs3 : fsys :=
+  [ (["src"; "a.c"], [(0, KPlain (ADefine "T" VE)); (1, KPlain ACode)]);
+    (["src"; "b.c"], [(0, KIf (CDefd "T")); (1, KPlain ACode); (2, KEndif)]);
+    (["src"; "config.h"], [(0, KPlain AOnce); (1, KPlain (ADefine "HAVE_CONFIG" (VI 1)))]) ].
+Theorem C08_prefix_refuted :
+  exists (fs : fsys) (fuel : nat) (cfg cfg' : config) (a a' b : amap),
+    reordered cfg cfg' /\
+    find_prefix fs fuel cfg = Ok a /\ find_prefix fs fuel cfg' = Ok a' /\ ~ same_map a a' /\
+    find_M fs fuel cfg = Ok b /\ ~ same_map a b.
+Proof.
+  exists ex_fs3, 5, [("P", [ex_ia; ex_ib])], [("P", [ex_ib; ex_ia])].
+  eexists. eexists. eexists.
+  split; [exists [("P", [ex_ia; ex_ib])]; split; [apply Permutation_refl|];
+          constructor; [|constructor]; split; [reflexivity|apply perm_swap]|].
+  split; [vm_compute; reflexivity|]. split; [vm_compute; reflexivity|].
+  assert (Hm : forall l, mem_triple ex_t l = false -> ~ In ex_t l).
+  { intros l E H. apply mem_triple_In in H. congruence. }
+  split; [|split; [vm_compute; reflexivity|]].
+  - intros H. refine (Hm _ _ (proj1 (H ex_t) _)); [vm_compute; reflexivity|].
+    apply mem_triple_In. vm_compute. reflexivity.
+  - intros H. refine (Hm _ _ (proj1 (H ex_t) _)); [vm_compute; reflexivity|].
+    apply mem_triple_In. vm_compute. reflexivity.
+Qed.
+Print Assumptions C08_prefix_refuted.
+
 (* non-vacuity: two platforms, three commands sharing a guarded header that defines
    what the other file tests; every command is accepted by the reference
    preprocessor; P uses b.c's conditional code only through its own -D *)
